@@ -207,7 +207,7 @@ def check_invocations(obs, ro, ref, prog, lazy_guard=None):
                 got = set(rt.cmp_kwargs(prog['nodes'][node], rec['kwargs']))     # names as the oracle compares them
                 if bad:
                     kind = 'bad_arg_' + bad[1]
-                elif any(v is None for v in rec['kwargs'].values()) and not any(
+                elif any(v is None and not _none_is_a_value(prog, node, pn) for pn, v in rec['kwargs'].items()) and not any(
                         any(v is None for v in x.kwargs.values()) for x in exp_nodes[node]):
                     kind = 'none_placeholder_arg'
                 elif got != {k for x in exp_nodes[node] for k in x.kwargs} and \
@@ -297,6 +297,23 @@ def _wrong_case(prog, node, kwargs, expected):
             if got in sw[p] and exp in sw[p] and got != exp:
                 return (p, got, exp)
     return None
+
+
+def _none_is_a_value(prog, node, pname):
+    """None can be a REAL value of this parameter: one of the nodes that may supply it (the dependency, a case, a
+    candidate, the destination) returns the literal None or falls back to a None default.  Then a None argument is a
+    (possibly wrongly routed) value, not a placeholder for a missing result."""
+    for pn, mk in prog['nodes'][node].get('params', []):
+        if pn != pname:
+            continue
+        src = {'in': lambda m: [m[1]], 'sw': lambda m: [c for _, c in m[3]], 'oneof': lambda m: list(m[1]),
+               'rec': lambda m: [m[2]]}.get(mk[0], lambda m: [])(mk)
+        for s in src:
+            n = prog['nodes'].get(s) or {}
+            plan = n.get('plan') or {}
+            if plan.get('ret') == ['lit', None] or plan.get('default_none'):
+                return True
+    return False
 
 
 def _wrong_candidate(prog, node, kwargs, expected):
